@@ -264,6 +264,7 @@ package sm
 //@ func (*Client).dwr(cli, c, osid, dwac)
 //@   property C13
 //@   requires cliok(cli) && c != nil && isptr(c) && cli.MaxRetransmits < 1<<62 && 0 <= sends(c) && sends(c) < 1<<62 && 0 <= written(c)
+//@   requires [C13] acknowledgements_are_not_stored: chancap(dwac) == 0
 //@   assume default_dictionary_initialised: dict.Default != nil && pwf(dict.Default)
 //@   assumepre WriteToStream: the DWR built from the settings fits a Diameter message and the bytes written on the connection so far are below 2^44
 //@   modifies recvs(dwac), sends(c), lastsent(c), connclosed(c), written(c), wstream(c), wlog(c)[written(c):1<<45], bufslice(any), bytes(any), inpool(any), fresh
@@ -319,6 +320,9 @@ package sm
 //@ end
 //@ func handleDWA(sm, dwac) (h)
 //@   property C13
+//@   # the handler acknowledges with a non-blocking send: on an unbuffered channel that reaches only a dwr() that is waiting
+//@   # for it; a buffered channel would keep a stale acknowledgement for the next, unanswered, request
+//@   requires [C12 C13] acknowledgements_are_not_stored: chancap(dwac) == 0
 //@   modifies
 //@   ensures made: h != nil
 //@ end
@@ -327,7 +331,7 @@ package sm
 //@ # that every failure path closes the connection.  What arrives on errc comes from another goroutine (the CEA handler,
 //@ # see handleCEA$1) and is an arbitrary value here; the spacing of retransmissions in time is not modelled.
 //@ func (*Client).handshake(cli, c) (rc, err)
-//@   property C12
+//@   property C12 C13
 //@   requires cliok(cli) && muxwf(cli.Handler.mux) && diam.ALL_CMD_INDEX == allidx() && c != nil && isptr(c) && cli.MaxRetransmits < 1<<62 && 0 <= sends(c) && sends(c) < 1<<62 && 0 <= written(c)
 //@   assume default_dictionary_initialised: dict.Default != nil && pwf(dict.Default)
 //@   assumepre WriteTo: the CER built from the settings fits a Diameter message and the bytes written on the connection so far are below 2^44
